@@ -18,7 +18,7 @@ Proof.
   pose proof (J_effect lvl c s e s' W (i_pend c s I1) Hs) as HJ.
   split; intros x Hx;
     destruct (HJ x)
-      as [H|H1 H2|HS H1 H2 H3 H4|H1 H2 H3 H4 H5 H6|H1 H2 H3 H4 H5|HS H1 H2 H3 H4 H5|HS H1 H2 H3 H4 H5|HS H1 H2 H3 H4 H5|HS H1 H2 H3 H4 H5 H6|HS H1 H2|HS H1 H2 H3].
+      as [H|H1 H2|HS H1 H2 H3 H4|H1 H2 H3 H4 H5 H6 H7|H1 H2 H3 H4 H5 H6|HS H1 H2 H3 H4 H5|HS H1 H2 H3 H4 H5|HS H1 H2 H3 H4 H5|HS H1 H2 H3 H4 H5 H6|HS H1 H2|HS H1 H2 H3].
   - rewrite H in *. apply (i_ran0 c s I2). exact Hx.
   - rewrite H1 in *. rewrite cancel_j_st in Hx. unfold cancel_j. destruct (finished (st (Jb s x))); cbn [ran];
       apply (i_ran0 c s I2); exact Hx.
@@ -175,7 +175,7 @@ Theorem C02a_ran_stable lvl c h0 s e s' x : wf c = true ->
 Proof.
   intros W Hr Hs Hran. destruct (Inv12_reach lvl c h0 s W Hr) as [I1 I2].
   destruct (J_effect lvl c s e s' W (i_pend c s I1) Hs x)
-    as [H|H1 H2|HS H1 H2 H3 H4|H1 H2 H3 H4 H5 H6|H1 H2 H3 H4 H5|HS H1 H2 H3 H4 H5|HS H1 H2 H3 H4 H5|HS H1 H2 H3 H4 H5|HS H1 H2 H3 H4 H5 H6|HS H1 H2|HS H1 H2 H3];
+    as [H|H1 H2|HS H1 H2 H3 H4|H1 H2 H3 H4 H5 H6 H7|H1 H2 H3 H4 H5 H6|HS H1 H2 H3 H4 H5|HS H1 H2 H3 H4 H5|HS H1 H2 H3 H4 H5|HS H1 H2 H3 H4 H5 H6|HS H1 H2|HS H1 H2 H3];
     auto.
   - rewrite H. exact Hran.
   - rewrite H1. unfold cancel_j. destruct (finished (st (Jb s x))); exact Hran.
@@ -279,7 +279,7 @@ Proof.
   split; [|split].
   - unfold view_of. cbn [v_sched]. intros Hns.
     destruct (J_effect lvl c s e s' W (i_pend c s I1) Hs x)
-      as [H|H1 H2|HS H1 H2 H3 H4|H1 H2 H3 H4 H5 H6|H1 H2 H3 H4 H5|HS H1 H2 H3 H4 H5|HS H1 H2 H3 H4 H5|HS H1 H2 H3 H4 H5|HS H1 H2 H3 H4 H5 H6|HS H1 H2|HS H1 H2 H3].
+      as [H|H1 H2|HS H1 H2 H3 H4|H1 H2 H3 H4 H5 H6 H7|H1 H2 H3 H4 H5 H6|HS H1 H2 H3 H4 H5|HS H1 H2 H3 H4 H5|HS H1 H2 H3 H4 H5|HS H1 H2 H3 H4 H5 H6|HS H1 H2|HS H1 H2 H3].
     + rewrite H. exact Hns.
     + rewrite H1, cancel_j_st. exact Hns.
     + rewrite H4. reflexivity.
